@@ -49,6 +49,10 @@ let eval fn args : string option =
   | "checksum", img :: rest ->
     let (m, _) = parse_map rest in
     Some (obs_outcome (fun b -> "ok " ^ hex_of_bytes b) (checksum_input m (bytes_of_hex img)))
+  | "jsonrt", [img] ->
+    (match json_roundtrip (bytes_of_hex img) with
+     | Some o -> Some (obs_outcome (fun b -> "ok " ^ hex_of_bytes b) o)
+     | None -> None)   (* names with bytes >= 0x80: Go's UTF-8 decoding is outside the model *)
   | _ -> None
 
 let () = run_file (fun fn args -> eval fn args) Sys.argv.(1)
